@@ -1,6 +1,8 @@
 package trzsz
 
 import (
+	"github.com/mattn/go-runewidth"
+	"regexp"
 	"bytes"
 	"encoding/json"
 	"fmt"
@@ -35,6 +37,8 @@ type xferOpts struct {
 	uploadVia  int // 0 OneTimeUpload, 1 UploadFiles (drag queue + scripted shell), 2 typed paths
 	// no default download path: the file dialog opens (a stand-in dialog program on PATH decides what the user did)
 	noDefaultPath bool
+	// how long a relay's connector takes to reach the next hop
+	relayConnectDelay time.Duration
 	filterOpts TrzszOptions
 	simCap     time.Duration
 	profile    transportProfile
@@ -83,6 +87,7 @@ func (p transportProfile) String() string {
 }
 
 type xferWorld struct {
+	termMark int // terminal offset at which the current transfer began
 	rc *runCtx
 	w  *verifsim.World
 	o  *xferOpts
@@ -180,6 +185,10 @@ func (x *xferWorld) downLast() *verifsim.Link { return x.down[len(x.down)-1] }
 // it reaches ports on the next machine towards the server only.
 func (x *xferWorld) connector(proc string, hop int) func(int) net.Conn {
 	return func(port int) net.Conn {
+		if hop > 0 && x.o.relayConnectDelay > 0 {
+			// a relay whose own connection towards the next hop takes its time
+			verifsim.Sleep(x.o.relayConnectDelay)
+		}
 		next := x.server
 		if hop < len(x.relayP) {
 			next = x.relayP[hop]
@@ -273,6 +282,27 @@ func (x *xferWorld) start() {
 				// the relay writes protocol traffic straight to the tmux client's tty
 				w.Ttys[tty] = &verifsim.SimFile{W: x.down[i]}
 			}
+		}
+		if mode == "normal" {
+			// what the relay writes to its stdout is pane output: it reaches the user's terminal through tmux, a
+			// little later than what the relay writes straight to the tmux client's tty
+			pane := w.NewLink(fmt.Sprintf("pane%d", i+1))
+			cliOut = verifsim.File(&verifsim.SimFile{W: pane})
+			dst := x.down[i]
+			lag := time.Duration(2+i) * 3 * time.Millisecond
+			w.Go(fmt.Sprintf("tmux.pane%d", i+1), nil, func() {
+				buf := make([]byte, 32*1024)
+				for {
+					n, err := pane.Read(buf)
+					if n > 0 {
+						verifsim.Sleep(lag)
+						dst.Write(append([]byte(nil), buf[:n]...))
+					}
+					if err != nil {
+						return
+					}
+				}
+			})
 		}
 		p.Stdout = cliOut
 		p.Stdin = &verifsim.SimFile{R: x.up[i]}
@@ -467,6 +497,7 @@ func (x *xferWorld) prepareServer() {
 func (x *xferWorld) launchServer() {
 	o := x.o
 	x.markUp, x.markDown = x.up[0].NSentInt(), x.downLast().NSentInt()
+	x.termMark = x.term.NSentInt()
 	x.server.Start("server.main", func() int {
 		if o.serverMain != nil {
 			return o.serverMain()
@@ -899,6 +930,48 @@ func vGenSources(rc *runCtx, root string, maxTop int, allowDirs bool, maxSize in
 		spec.classes = append(spec.classes, c)
 	}
 	return spec
+}
+
+var vProgressPct = regexp.MustCompile(`\d+%`)
+
+// progressOverflow looks at every progress line the client wrote to the terminal from offset `from` on: none
+// may be wider than the narrowest width in force - the server's tmux pane when it sits in one (its width is 77
+// in this world), else the terminal (cols). Returns "" when fine.
+func (x *xferWorld) progressOverflow(from int, cols int32) string {
+	limit := int(cols)
+	if x.o.srvTmux != "" && limit > 77 {
+		limit = 77
+	}
+	if limit < 5 {
+		return ""
+	}
+	term, _, evs := x.term.Snapshot()
+	for _, e := range evs {
+		if e.Off < from || e.Off+e.N > len(term) {
+			continue
+		}
+		chunk := string(term[e.Off : e.Off+e.N])
+		if !vProgressPct.MatchString(chunk) {
+			continue
+		}
+		text := chunk
+		if strings.HasPrefix(text, "%output ") || strings.HasPrefix(text, "%extended-output ") {
+			// tmux control-mode framing: prefix, octal escapes, CR LF
+			if i := strings.Index(text, " : "); strings.HasPrefix(text, "%extended") && i >= 0 {
+				text = text[i+3:]
+			} else if f := strings.SplitN(text, " ", 3); len(f) == 3 {
+				text = f[2]
+			}
+			text = vTmuxUnescape(strings.TrimSuffix(text, "\r\n"))
+		} else if !strings.HasPrefix(text, "\r") && !strings.Contains(text, "D") {
+			continue // not a progress redraw (some other output that happens to contain a percentage)
+		}
+		vis := vCtlSeq.ReplaceAllString(text, "")
+		if w := runewidth.StringWidth(vis); w > limit {
+			return fmt.Sprintf("a progress line of display width %d was written while the narrowest width on the path was %d (terminal %d, server tmux %q): %q", w, limit, cols, x.o.srvTmux, vClip(vis, 140))
+		}
+	}
+	return ""
 }
 
 // dumpWire appends the tail of every link's recorded stream to the result detail (debugging aid).
